@@ -242,6 +242,10 @@ def _program_name(args):
     return os.path.basename(str(args[0]))
 
 
+import os as _os
+_STRICT_HANDLES = _os.environ.get('VERIF_SEAM_LENIENT') != '1'
+
+
 def _kind(f):
     if f is None:
         return 'inherit'
@@ -266,10 +270,13 @@ def _read_stdin(stdin):
     if hasattr(stdin, 'fileno'):
         # a real child reads the file *descriptor* from its current OS-level offset: raw bytes, no newline translation,
         # nothing of what the parent's file object has buffered but not flushed
-        try:
-            fd = stdin.fileno()
-        except Exception:  # noqa  (io.StringIO etc.: no descriptor)
-            fd = None
+        if _STRICT_HANDLES:
+            fd = stdin.fileno()  # subprocess calls fileno() on a file object; one without a descriptor makes Popen raise
+        else:
+            try:
+                fd = stdin.fileno()
+            except Exception:  # noqa  (io.StringIO etc.: no descriptor)
+                fd = None
         if fd is not None:
             chunks = []
             while True:
@@ -299,10 +306,13 @@ def _write(f, text):
     if hasattr(f, 'fileno'):
         # a real child gets the file *descriptor* (subprocess calls fileno(), which e.g. makes exactly's spooled
         # file roll over to disk): write through it, as the child would
-        try:
-            fd = f.fileno()
-        except Exception:  # noqa  (io.StringIO etc.: no descriptor)
-            fd = None
+        if _STRICT_HANDLES and not getattr(f, '_verif_harness_sink', False):
+            fd = f.fileno()  # as subprocess does: a file object without a descriptor makes Popen raise
+        else:
+            try:
+                fd = f.fileno()
+            except Exception:  # noqa  (the harness's own StringIO stdout / stderr of the main program)
+                fd = None
         if fd is not None:
             # NO flush of the parent's file object: subprocess does not flush it either, so text the parent has written to `f`
             # but not flushed lands AFTER what the child writes (found as KF-C10-STDOUT-ORDER when an earlier flush here hid it)
